@@ -22,6 +22,8 @@ type c08Spec struct {
 	D     int      `json:"d,omitempty"`
 	Word  []string `json:"word,omitempty"`
 	Long  *lwSpec  `json:"long,omitempty"` // a long world (long.go) instead of words
+	NFrom int `json:"n_from,omitempty"` // sub-step sweep: one run per forced sub-step count in [NFrom, NTo]
+	NTo   int `json:"n_to,omitempty"`
 	GWRise bool    `json:"gw_rise,omitempty"` // groundwater time series: deep during the warm-up, rising above the rooting depth during the word
 }
 
@@ -61,6 +63,13 @@ func c08Specs(tier string, seed int) []c08Spec {
 					}
 				}
 			}
+		}
+	}
+	// what the sub-step loop applies over the whole day: every forced sub-step count (bare soil evaporating at the
+	// potential rate and a transpiring crop)
+	for _, b := range []e1Base{{Soil: "stony9", GW: 99, InitW: 1.0, ET: 3}, {Soil: "sand20", GW: 99, InitW: 1.0, ET: 2, Crop: "SW", WarmUp: 0, Start: "2001-05-20"}} {
+		for from := 1; from <= 130; from += 10 {
+			out = append(out, c08Spec{Base: b, Lat: 52, NFrom: from, NTo: min(from+9, 130)})
 		}
 	}
 	// a standing crop whose roots are overtaken by a rising groundwater table (time series)
@@ -128,11 +137,13 @@ type c08Probe struct {
 	wgStart  [21]float64
 	nontriv  bool
 	et       int
+	sumWdt, etp, eta, tpSum float64 // the day's potential ET, evaporation and uptake as computed, and the summed length of the executed sub-steps
+	tp [21]float64
 }
 
 func (l *c08Probe) probe() *hermes.VerifProbe {
 	return &hermes.VerifProbe{
-		DayStart: func(g *hermes.GlobalVarsMain, zeit int) { l.verd0 = g.VERDUNST },
+		DayStart: func(g *hermes.GlobalVarsMain, zeit int) { l.verd0 = g.VERDUNST; l.sumWdt = 0 },
 		AfterEvatra: func(g *hermes.GlobalVarsMain, zeit int, w *hermes.WaterSharedVars) {
 			N := g.N
 			etp := g.VERDUNST - l.verd0 // potential ET of the day (cm)
@@ -147,6 +158,8 @@ func (l *c08Probe) probe() *hermes.VerifProbe {
 				l.wgStart[i] = g.WG[0][i]
 			}
 			l.c.Eval(6)
+			l.etp, l.eta, l.tpSum = etp, g.ETA, tp
+			copy(l.tp[:], g.TP[:N])
 			cls := fmt.Sprintf(" ETmethod=%d", l.et)
 			if !finite(etp) || etp < -1e-12 {
 				l.c.Violate("negative potential ET"+cls, fmt.Sprintf("%s day %d: potential ET %.6g cm (T=%.1f)", l.label, zeit, etp, g.TEMP[g.TAG.Index]), nil)
@@ -197,6 +210,7 @@ func (l *c08Probe) probe() *hermes.VerifProbe {
 			}
 		},
 		SubStep: func(g *hermes.GlobalVarsMain, zeit, subd int, steps, wdt float64, w *hermes.WaterSharedVars, n *hermes.NitroSharedVars) {
+			l.sumWdt += wdt
 			if subd != 1 {
 				return
 			}
@@ -213,6 +227,20 @@ func (l *c08Probe) probe() *hermes.VerifProbe {
 		},
 		DayEnd: func(g *hermes.GlobalVarsMain, zeit int, steps, wdt float64, cs *hermes.CropSharedVars, w *hermes.WaterSharedVars) {
 			l.c.Transition(1)
+			// the rates of the day are applied once per executed sub-step, weighted with its length: what the soil actually
+			// loses to evaporation and roots over the day is rate x summed sub-step length
+			if applied := (l.eta + l.tpSum) * l.sumWdt; finite(l.etp) && l.etp >= 0 && applied > l.etp+1e-12 && l.eta+l.tpSum <= l.etp+1e-12 {
+				l.c.Violate("ET applied over the day's sub-steps above potential", fmt.Sprintf("%s day %d: %g sub-steps of %.17g d were executed (%.17g d in total): evaporation + transpiration applied %.10g cm exceeds potential ET %.10g cm", l.label, zeit, steps, wdt, l.sumWdt, applied, l.etp), nil)
+			}
+			for i := 0; i < g.N; i++ {
+				avail := math.Max(0, (l.wgStart[i]-g.WMIN[i])*g.DZ.Num)
+				if l.tp[i] <= avail+1e-12 && l.tp[i]*l.sumWdt > avail+1e-12 {
+					l.c.Violate("uptake applied over the day's sub-steps above available water", fmt.Sprintf("%s day %d layer %d: uptake %.10g cm/d over %.17g d of sub-steps, plant-available %.10g cm", l.label, zeit, i+1, l.tp[i], l.sumWdt, avail), nil)
+				}
+			}
+			if steps > 1 {
+				l.c.Count("days_with_several_substeps", 1)
+			}
 		},
 	}
 }
@@ -225,6 +253,30 @@ func c08Run(raw json.RawMessage, c *mc.Ctx) {
 		lwRun(c, *sp.Long, root, nil, func(w *lwInfo) *hermes.VerifProbe {
 			return (&c08Probe{c: c, label: "long world " + w.Name, et: lwDefs()[sp.Long.World].et}).probe()
 		})
+		return
+	}
+	if sp.NTo > 0 {
+		substepSweep(sp.Base, sp.NFrom, sp.NTo, c, root, func(n int, rainMM float64, p *proj.Project, start int) {
+			l := &c08Probe{c: c, label: fmt.Sprintf("sub-step sweep n=%d rain=%gmm", n, rainMM), et: sp.Base.ET}
+			nv := len(c.Viol)
+			res := proj.Run(root, p.Args(root), l.probe())
+			c.Trace(1)
+			if res.Panic != "" || !res.Success {
+				c.Outcome("run-error")
+				c.Violate("run-error", fmt.Sprintf("run failed on valid input (sub-step sweep n=%d): %s %s", n, res.Err, res.Panic), nil)
+			} else {
+				c.Outcome("ok sweep")
+			}
+			if len(c.Viol) > nv && sp.NFrom != sp.NTo {
+				one := sp
+				one.NFrom, one.NTo = n, n
+				b, _ := json.Marshal(one)
+				for i := nv; i < len(c.Viol); i++ {
+					c.Viol[i].Spec = b
+				}
+			}
+		})
+		c.Sample(map[string]interface{}{"sweep": sp.Base, "n_from": sp.NFrom, "n_to": sp.NTo})
 		return
 	}
 	ws := words(sp.Alpha, sp.D)
